@@ -611,6 +611,42 @@ Proof.
   destruct (stepNode N fires l k g) as [l' g']. simpl in *. apply IH; auto.
 Qed.
 
+(** a pass stopped by failing predicates *)
+Lemma invW_panicked N l k :
+  InvW N l -> queued (nd l k) = true -> InvW N (upd l k panicked_).
+Proof.
+  intros HI Hq. apply (invW_pw N N l _ HI).
+  - intros m. rewrite nd_upd. case_decide; simpl; auto.
+  - intros x w Hw (H1 & H2 & H3 & H4). unfold watch_ok. rewrite !nd_upd.
+    destruct (decide (x = k /\ x < length l)) as [[-> _]|_]; simpl;
+      (destruct (decide (w = k /\ w < length l)) as [[-> _]|_]; simpl);
+      (split; [auto|]; split; [auto|]; split; [auto|]); intros Hr; destruct (H4 Hr) as (?&?&?); auto.
+  - intros x Hw (H1 & H2 & H3). unfold unwatched_ok. rewrite !nd_upd. case_decide; simpl; auto.
+Qed.
+
+Lemma invW_runListed N fires skip lg k :
+  InvW N (fst lg) -> InvW N (fst (runListed N fires skip lg k)).
+Proof. intros HI. unfold runListed. destruct (_ && _); auto. apply invW_stepNode; auto. Qed.
+
+Lemma invW_failStep N pan lg x : InvW N (fst lg) -> InvW N (fst (failStep head pan lg x)).
+Proof.
+  intros HI. unfold failStep. destruct (queued (nd (fst lg) x)) eqn:Eq; simpl; auto.
+  destruct (isSent _); simpl; auto. destruct pan; auto. apply invW_panicked; auto.
+Qed.
+
+Lemma fold_inv {A B} (P : A -> Prop) (f : A -> B -> A) (bs : list B) :
+  (forall a b, P a -> P (f a b)) -> forall a, P a -> P (fold_left f bs a).
+Proof. intros H. induction bs as [|b bs IH]; intros a Ha; simpl; auto. Qed.
+
+Lemma invW_stoppedLoop N fires ran failed panicked l :
+  InvW N l -> InvW N (fst (stoppedLoop head N fires ran failed panicked l)).
+Proof.
+  intros HI. unfold stoppedLoop.
+  apply (fold_inv (fun lg => InvW N (fst lg))); [intros; apply invW_failStep; auto|].
+  apply (fold_inv (fun lg => InvW N (fst lg))); [intros; apply invW_failStep; auto|].
+  apply (fold_inv (fun lg => InvW N (fst lg))); [intros; apply invW_runListed; auto|]. auto.
+Qed.
+
 Lemma invW_step s o :
   InvW (num s) (nodes s) ->
   InvW (num (fst (step head s o))) (nodes (fst (step head s o))).
@@ -625,6 +661,7 @@ Proof.
   - apply invW_Unwatch; auto.
   - unfold Stabilize. pose proof (invW_stabLoop (num s) fires (length (nodes s)) (nodes s) plog0 HI) as H1.
     destruct (stabLoop _ _ _ _ _) as [l g]. simpl in *. apply invW_requeue; auto.
+  - apply invW_requeue, invW_stoppedLoop; auto.
 Qed.
 
 Lemma invW_run ops : forall s,
@@ -703,11 +740,23 @@ Proof.
   destruct (stepNode N fires l k g) as [l' g']. simpl in *. apply IH; auto.
 Qed.
 
+Lemma stamps_stoppedLoop N fires ran failed panicked l :
+  Stamps (S N) l -> Stamps (S N) (fst (stoppedLoop head N fires ran failed panicked l)).
+Proof.
+  intros HS. unfold stoppedLoop.
+  assert (Hf : forall pan lg k, Stamps (S N) (fst lg) -> Stamps (S N) (fst (failStep head pan lg k))).
+  { intros pan lg k H. unfold failStep. destruct (_ && _); simpl; auto. destruct pan; auto. unfold upd. st_imap. }
+  apply (fold_inv (fun lg => Stamps (S N) (fst lg))); [intros; apply Hf; auto|].
+  apply (fold_inv (fun lg => Stamps (S N) (fst lg))); [intros; apply Hf; auto|].
+  apply (fold_inv (fun lg => Stamps (S N) (fst lg))); [|auto].
+  intros lg k H. unfold runListed. destruct (_ && _); auto. apply stamps_stepNode; auto.
+Qed.
+
 Lemma stamps_step s o :
   0 < num s -> Stamps (num s) (nodes s) ->
   0 < num (fst (step head s o)) /\ Stamps (num (fst (step head s o))) (nodes (fst (step head s o))).
 Proof.
-  intros HB HI. destruct o as [v|f a|w|n|n|n v|xx|fires]; simpl; [split; [assumption|]..|].
+  intros HB HI. destruct o as [v|f a|w|n|n|n v|xx|fires|fires ran failed panicked]; simpl; [split; [assumption|]..| |].
   - apply stamps_app; auto. split; simpl; auto.
   - unfold NewMap. destruct (_ && _); auto. apply stamps_app; auto. split; simpl; auto.
   - unfold NewSentinel. destruct (_ && _); auto. apply stamps_app; auto; [split; simpl; auto|].
@@ -726,6 +775,9 @@ Proof.
     destruct (stabLoop _ _ _ _ _) as [l g]. simpl in *. split; [flia|]. unfold requeue. apply stamps_imap; [flia| |].
     + intros i x [? ?]; repeat case_match; split; simpl; auto.
     + apply H1. eapply stamps_mono; [|eauto]. flia.
+  - split; [flia|]. unfold requeue. apply stamps_imap; [flia| |].
+    + intros i x [? ?]; repeat case_match; split; simpl; auto.
+    + apply stamps_stoppedLoop. eapply stamps_mono; [|eauto]. flia.
 Qed.
 
 Lemma stamps_run ops : forall s,
@@ -1217,7 +1269,7 @@ Qed.
 
 Lemma OSQ_quiet s o : quiet o -> OSQ (nodes s) -> OSQ (nodes (fst (step head s o))).
 Proof.
-  intros Hq H. destruct o as [v|f a|w|n|n|n v|xx|fires]; simpl in *; try tauto.
+  intros Hq H. destruct o as [v|f a|w|n|n|n v|xx|fires|fires ran failed panicked]; simpl in *; try tauto.
   - apply OSQ_app; auto; simpl; discriminate.
   - unfold NewMap. destruct (_ && _); auto. apply OSQ_app; auto; simpl; discriminate.
   - unfold NewSentinel. destruct (_ && _); auto. apply OSQ_app; auto.
@@ -1257,13 +1309,13 @@ Definition f1 : fn := Aff 2 1.
 Definition hist_relink : list op :=
   [ONewVar 5; ONewMap f1 0; ONewSentinel 1; OObserve 1; OStabilize []; OUnobserve 1; OObserve 1].
 
-Lemma relink_refuted : ~ watch_stmt (Cfg false true true) hist_relink 2.
+Lemma relink_refuted : ~ watch_stmt (Cfg false true true true) hist_relink 2.
 Proof. unfold watch_stmt. vm_compute. intros (_ & _ & _ & _ & _ & H & _). discriminate. Qed.
 
 (** 2d28149 off: a sentinel attached to an observed var shares height 0 with it *)
 Definition hist_order : list op := [ONewVar 5; OObserve 0; ONewSentinel 0].
 
-Lemma order_refuted : ~ watch_stmt (Cfg true false true) hist_order 1.
+Lemma order_refuted : ~ watch_stmt (Cfg true false true true) hist_order 1.
 Proof.
   unfold watch_stmt. vm_compute. intros (_ & _ & _ & _ & _ & _ & H).
   destruct (H eq_refl) as (_ & _ & H1 & _). inversion H1.
@@ -1274,13 +1326,13 @@ Qed.
 Definition hist_start : list op :=
   [ONewVar 5; ONewMap f1 0; OObserve 1; OStabilize []; ONewSentinel 1].
 
-Lemma start_refuted : ~ watch_stmt (Cfg true true false) hist_start 2.
+Lemma start_refuted : ~ watch_stmt (Cfg true true false true) hist_start 2.
 Proof.
   unfold watch_stmt. vm_compute. intros (_ & _ & _ & _ & _ & _ & H).
   destruct (H eq_refl) as (_ & _ & _ & H1). discriminate.
 Qed.
 
-Lemma start_pass_refuted : ~ pass_stmt (Cfg true true false) hist_start [2] 2 1.
+Lemma start_pass_refuted : ~ pass_stmt (Cfg true true false true) hist_start [2] 2 1.
 Proof.
   unfold pass_stmt. vm_compute. intros H. destruct (H eq_refl eq_refl) as [H1 _]. discriminate.
 Qed.
@@ -1959,10 +2011,12 @@ Proof.
   intros HG Hq. destruct (reg (nd l m)) eqn:E; auto. destruct (g_unreg _ HG m E). congruence.
 Qed.
 
-Lemma PV_step N fires l g k :
-  PV N l -> pick l = Some k -> PV N (fst (stepNode N fires l k g)).
+Lemma PV_step_gen N fires l g k :
+  PV N l -> k < length l -> queued (nd l k) = true ->
+  (forall m, queued (nd l m) = true -> height (nd l k) <= height (nd l m)) ->
+  PV N (fst (stepNode N fires l k g)).
 Proof.
-  intros [HS HI HG Hq HH] Ek. destruct (pick_Some _ _ Ek) as (Hk & Hqk & Hmin).
+  intros [HS HI HG Hq HH] Hk Hqk Hmin.
   pose proof (Hq _ Hqk) as Hrk. pose proof (queued_reg _ _ HG Hqk) as Hregk.
   pose proof (stepNode_stepped N fires l k g Hk) as [Hl Hs].
   destruct (stepNode_detail N fires l k g Hk) as (D1 & D2 & D3).
@@ -2019,6 +2073,12 @@ Proof.
     + destruct (Hnew q Hq') as [?|?]; [auto|]. pose proof (HH r k Hr Hqk). flia.
 Qed.
 
+Lemma PV_step N fires l g k :
+  PV N l -> pick l = Some k -> PV N (fst (stepNode N fires l k g)).
+Proof.
+  intros HP Ek. destruct (pick_Some _ _ Ek) as (Hk & Hqk & Hmin). apply PV_step_gen; auto.
+Qed.
+
 Lemma PV_start N l : Stamps N l -> InvW N l -> InvG l -> PV N l.
 Proof.
   intros HS HI HG. constructor; auto.
@@ -2061,12 +2121,185 @@ Proof.
     rewrite Hnq in Hb. discriminate.
 Qed.
 
+(** the stopped pass keeps the value invariant: whatever ran in it has all its inputs, up to
+    the var, recomputed in it as well *)
+Lemma map_height_pos l m : InvG l -> isMap (nd l m) = true -> reg (nd l m) = true -> 0 < height (nd l m).
+Proof.
+  intros HG Hm Hr. unfold isMap in Hm. destruct (kind_ (nd l m)) eqn:Ek; try discriminate.
+  destruct (g_edge _ HG _ _ _ Ek Hr). flia.
+Qed.
+
+Record PS (N : nat) (l : list node) : Prop := {
+  s_stamps : Stamps (S N) l;
+  s_invW : InvW N l;
+  s_invG : InvG l;
+  s_q : forall m, queued (nd l m) = true -> rAt (nd l m) < N;
+  s_RA : forall r b, rAt (nd l r) = N -> isSent (nd l r) = false -> anc l r b -> rAt (nd l b) = N
+}.
+
+Lemma PS_step N fires l g k :
+  PS N l -> k < length l -> queued (nd l k) = true ->
+  (height (nd l k) = 0 \/ exists f a, kind_ (nd l k) = KMap f a /\ rAt (nd l a) = N) ->
+  PS N (fst (stepNode N fires l k g)).
+Proof.
+  intros [HS HI HG Hq HH] Hk Hqk Hguard.
+  pose proof (Hq _ Hqk) as Hrk. pose proof (queued_reg _ _ HG Hqk) as Hregk.
+  pose proof (stepNode_stepped N fires l k g Hk) as [Hl Hs].
+  destruct (stepNode_detail N fires l k g Hk) as (D1 & D2 & D3).
+  pose proof (i_static _ _ HI) as HS0.
+  set (l' := fst (stepNode N fires l k g)) in *.
+  assert (Hkind : forall m, kind_ (nd l' m) = kind_ (nd l m)) by (intros m; apply (Hs m)).
+  assert (Hreg : forall m, reg (nd l' m) = reg (nd l m)) by (intros m; apply (Hs m)).
+  assert (Hht : forall m, height (nd l' m) = height (nd l m)) by (intros m; apply (Hs m)).
+  assert (Hrat : forall m, rAt (nd l' m) = if decide (m = k) then N else rAt (nd l m)) by (intros m; apply (Hs m)).
+  (* a newly queued node sits above k *)
+  assert (Hnew : forall q, queued (nd l' q) = true -> queued (nd l q) = true \/ height (nd l k) < height (nd l q)).
+  { intros q Hq'. destruct (D2 q Hq') as [?|[[Hc Hr]|(Hw & Hsk & Hr)]]; auto; right.
+    - apply isMapOf_spec in Hc as [f Hc]. apply (g_edge _ HG _ _ _ Hc Hr).
+    - destruct (i_sent _ _ HI _ _ Hw) as (_&_&_&H4). destruct (H4 Hr) as (_&?&_). auto. }
+  (* a dependent of k in the graph has not run yet, so it is queued now *)
+  assert (Hkid : forall c f, kind_ (nd l c) = KMap f k -> reg (nd l c) = true -> queued (nd l' c) = true).
+  { intros c f Hc Hr. destruct (i_kmap _ HS0 _ _ _ Hc) as [Hkc Hsk].
+    destruct (g_edge _ HG _ _ _ Hc Hr) as [_ Hh].
+    apply D1; auto; [apply isMapOf_spec; eauto| |flia].
+    destruct (HS c) as [Hle _]. destruct (decide (rAt (nd l c) = N)) as [E|]; [|flia].
+    assert (Hsc : isSent (nd l c) = false) by (unfold isSent; rewrite Hc; auto).
+    pose proof (HH c k E Hsc (anc_step l c f k k Hc (anc_refl l k))). flia. }
+  constructor.
+  - apply stamps_stepNode; auto.
+  - apply invW_stepNode; auto.
+  - constructor.
+    + intros m f a. rewrite Hkind, !Hreg, !Hht. apply (g_edge _ HG).
+    + intros n. destruct (Hs n) as ((_&_&_&_&_&_&O)&_). rewrite Hreg, O. apply (g_obs _ HG).
+    + intros n. rewrite Hreg, Hrat. intros Hr. destruct (g_unreg _ HG n Hr) as [Hqn Han].
+      destruct (decide (n = k)) as [->|]; [congruence|]. split; auto.
+      destruct (queued (nd l' n)) eqn:E; auto. destruct (Hs n) as (_&_&Q1&_).
+      destruct (Q1 E) as [_ [?|(_&_&?)]]; congruence.
+    + intros m f a. rewrite Hkind, Hreg. intros Hkm Hr.
+      destruct (i_kmap _ HS0 _ _ _ Hkm) as [Ham Hsa].
+      destruct (decide (m = k)) as [->|Hne].
+      * right. rewrite (D3 _ _ Hkm). destruct (Hs a) as (_&_&_&_&V). destruct V as [V _]; [flia|]. rewrite V. auto.
+      * destruct (decide (a = k)) as [->|Hna].
+        -- left. exists m. split; [constructor|]. eapply Hkid; eauto.
+        -- destruct (Hs m) as (_&_&_&_&Vm), (Hs a) as (_&_&_&_&Va).
+           destruct (Vm Hne) as [-> _]. destruct (Va Hna) as [-> _].
+           destruct (g_cons _ HG _ _ _ Hkm Hr) as [(b & Hab & Hqb)|]; auto. left.
+           assert (Hanc : forall x y, anc l x y -> anc l' x y).
+           { intros x y. apply anc_mono. intros z f' a'. rewrite Hkind. auto. }
+           destruct (decide (b = k)) as [->|Hnb].
+           ++ destruct (anc_child _ _ _ Hab Hne) as (c & f' & Hc1 & Hc2).
+              destruct (anc_reg l m c (g_edge _ HG) Hc1 Hr) as [Hrc _].
+              exists c. split; auto. eapply Hkid; eauto.
+           ++ exists b. split; auto. destruct (Hs b) as (_&_&_&Q2&_). auto.
+  - intros m Hm. rewrite Hrat. destruct (Hs m) as (_&_&Q1&_). destruct (Q1 Hm) as [Hne [?|(?&_)]].
+    + destruct (decide (m = k)); [congruence|]. auto.
+    + destruct (decide (m = k)); [congruence|]. auto.
+  - intros r b. rewrite !Hrat. unfold isSent. rewrite Hkind. fold (isSent (nd l r)). intros Hr Hsr Hab.
+    assert (Hab' : anc l r b). { eapply anc_mono; [|eauto]. intros z f' a'. rewrite Hkind. auto. }
+    destruct (decide (b = k)); auto.
+    destruct (decide (r = k)) as [->|Hne]; [|apply (HH r b); auto].
+    destruct Hguard as [H0|(f & a & Hkk & Hra)].
+    + inversion Hab' as [|x f a b' Hkk Ha]; subst; [congruence|].
+      assert (isMap (nd l k) = true) by (unfold isMap; rewrite Hkk; auto).
+      pose proof (map_height_pos l k HG H Hregk). flia.
+    + inversion Hab' as [|x f' a' b' Hkk' Ha]; subst; [congruence|].
+      rewrite Hkk in Hkk'. inversion Hkk'; subst.
+      destruct (i_kmap _ HS0 _ _ _ Hkk) as [_ Hsa]. apply (HH a' b); auto.
+Qed.
+
+Lemma PS_start N l : Stamps N l -> InvW N l -> InvG l -> PS N l.
+Proof.
+  intros HS HI HG. constructor; auto.
+  - eapply stamps_mono; [|eauto]. flia.
+  - intros m _. apply HS.
+  - intros r b Hr. destruct (HS r). flia.
+Qed.
+
+Lemma PS_panicked N l k :
+  0 < N -> PS N l -> queued (nd l k) = true -> isSent (nd l k) = true -> PS N (upd l k panicked_).
+Proof.
+  intros HN [HS HI HG Hq HH] Hqk Hsk. pose proof (queued_reg _ _ HG Hqk) as Hrk.
+  assert (F : forall m, kind_ (nd (upd l k panicked_) m) = kind_ (nd l m) /\ reg (nd (upd l k panicked_) m) = reg (nd l m) /\
+             height (nd (upd l k panicked_) m) = height (nd l m) /\ obs (nd (upd l k panicked_) m) = obs (nd l m) /\
+             val (nd (upd l k panicked_) m) = val (nd l m) /\ queued (nd (upd l k panicked_) m) = queued (nd l m) /\
+             (rAt (nd (upd l k panicked_) m) = rAt (nd l m) \/ (m = k /\ rAt (nd (upd l k panicked_) m) = 0))).
+  { intros m. rewrite nd_upd. case_decide as Hd; [|auto 10]. destruct Hd as [-> _]. simpl. auto 10. }
+  set (l1 := upd l k panicked_) in *.
+  constructor.
+  - unfold l1, upd. st_imap.
+  - apply invW_panicked; auto.
+  - constructor.
+    + intros m f a. destruct (F m) as (K&R&H&_), (F a) as (_&R'&H'&_). rewrite K, R, H, R', H'. apply (g_edge _ HG).
+    + intros n. destruct (F n) as (_&R&_&O&_). rewrite R, O. apply (g_obs _ HG).
+    + intros n. destruct (F n) as (_&R&_&_&_&Q&A). rewrite R, Q. intros Hr. destruct (g_unreg _ HG n Hr).
+      destruct A as [->|[_ ->]]; auto.
+    + intros m f a. destruct (F m) as (K&R&_&_&V&_), (F a) as (_&_&_&_&V'&_). rewrite K, R, V, V'.
+      intros Hk Hr. destruct (g_cons _ HG _ _ _ Hk Hr) as [Hd|]; auto. left.
+      apply (dirty_mono l l1); auto.
+      * intros x f' a'. destruct (F x) as (K'&_). rewrite K'. auto.
+      * intros b. destruct (F b) as (_&_&_&_&_&Q&_). rewrite Q. auto.
+  - intros m. destruct (F m) as (_&_&_&_&_&Q&A). rewrite Q. intros Hm. destruct A as [->|[_ ->]]; auto.
+  - intros r b. destruct (F r) as (K&_&_&_&_&_&A). unfold isSent. rewrite K. fold (isSent (nd l r)).
+    intros Hr Hsr Hab.
+    assert (Hab' : anc l r b). { eapply anc_mono; [|eauto]. intros z f' a'. destruct (F z) as (K'&_). rewrite K'. auto. }
+    assert (Hrr : rAt (nd l r) = N). { destruct A as [<-|[_ E]]; auto. rewrite E in Hr. flia. }
+    destruct (F b) as (_&_&_&_&_&_&[->|[-> _]]); [apply (HH r b); auto|].
+    apply (anc_sent l r k (i_static _ _ HI) Hab') in Hsk. subst. congruence.
+Qed.
+
+Lemma runnable_spec N l k :
+  runnable N l k = true ->
+  queued (nd l k) = true /\
+  (height (nd l k) = 0 \/ exists f a, kind_ (nd l k) = KMap f a /\ rAt (nd l a) = N).
+Proof.
+  unfold runnable. intros H. apply andb_true_iff in H as [H1 H2]. split; auto.
+  apply orb_true_iff in H2 as [H2|H2]; [left; apply Nat.eqb_eq; auto|right].
+  destruct (kind_ (nd l k)) eqn:E; try discriminate. apply Nat.eqb_eq in H2. eauto.
+Qed.
+
+Lemma PS_stoppedLoop N fires ran failed panicked l :
+  0 < N -> PS N l -> PS N (fst (stoppedLoop head N fires ran failed panicked l)).
+Proof.
+  intros HN HP. unfold stoppedLoop.
+  set (P := fun lg : list node * plog => PS N (fst lg)).
+  assert (Hf : forall pan lg x, P lg -> P (failStep head pan lg x)).
+  { intros pan lg x H1. unfold P, failStep in *. destruct (queued (nd (fst lg) x)) eqn:Eq; simpl; auto.
+    destruct (isSent _) eqn:Es; simpl; auto. destruct pan; auto. apply PS_panicked; auto. }
+  apply (fold_inv P); [intros; apply Hf; auto|].
+  apply (fold_inv P); [intros; apply Hf; auto|].
+  apply (fold_inv P); [|auto].
+  intros [l0 g0] k H1. unfold P, runListed in *. simpl in *.
+  destruct (runnable N l0 k) eqn:Er; simpl; auto. destruct (negb _); simpl; auto.
+  destruct (runnable_spec _ _ _ Er) as [Eq Hg]. apply PS_step; auto. apply queued_lt; auto.
+Qed.
+
+Lemma requeue_frame N l1 m :
+  kind_ (nd (requeue N l1) m) = kind_ (nd l1 m) /\ reg (nd (requeue N l1) m) = reg (nd l1 m) /\
+  height (nd (requeue N l1) m) = height (nd l1 m) /\ obs (nd (requeue N l1) m) = obs (nd l1 m) /\
+  val (nd (requeue N l1) m) = val (nd l1 m) /\ rAt (nd (requeue N l1) m) = rAt (nd l1 m) /\
+  (queued (nd l1 m) = true -> queued (nd (requeue N l1) m) = true) /\
+  (queued (nd (requeue N l1) m) = true -> queued (nd l1 m) = true \/ reg (nd l1 m) = true).
+Proof.
+  unfold requeue. rewrite nd_imap. case_decide; [|rewrite nd_ge by flia; simpl; auto 10].
+  destruct (isSent (nd l1 m) && (rAt (nd l1 m) =? N) && reg (nd l1 m)) eqn:E; [|auto 10].
+  apply andb_true_iff in E as [_ E]. simpl. auto 10.
+Qed.
+
+Lemma stopped_end s fires ran failed panicked :
+  0 < num s -> Stamps (num s) (nodes s) -> InvW (num s) (nodes s) -> InvG (nodes s) ->
+  InvG (nodes (fst (StabilizeStopped head s fires ran failed panicked))).
+Proof.
+  intros HN HS HI HG. unfold StabilizeStopped. simpl.
+  pose proof (PS_stoppedLoop (num s) fires ran failed panicked (nodes s) HN (PS_start _ _ HS HI HG)) as HP.
+  apply (invG_frame _ _ (s_invG _ _ HP)). intros m. apply requeue_frame.
+Qed.
+
 Lemma invG_step s o :
   0 < num s -> Stamps (num s) (nodes s) -> InvW (num s) (nodes s) -> InvG (nodes s) ->
   InvG (nodes (fst (step head s o))).
 Proof.
   intros HN HS HI HG. pose proof (i_static _ _ HI) as HS0.
-  destruct o as [v|f a|w|n|n|n v|xx|fires]; simpl.
+  destruct o as [v|f a|w|n|n|n v|xx|fires|fires ran failed panicked]; simpl.
   - apply invG_NewVar; auto.
   - apply invG_NewMap; auto.
   - apply invG_NewSentinel; auto.
@@ -2075,6 +2308,7 @@ Proof.
   - eapply invG_SetVar; eauto.
   - eapply invG_Unwatch; eauto.
   - apply pass_end; auto.
+  - apply stopped_end; auto.
 Qed.
 
 Lemma invG_init : InvG [].
@@ -2123,4 +2357,118 @@ Proof.
   pose proof (invW_step (run head init ops) (OStabilize fires) (proj2 (proj2 (boundary ops)))) as HI.
   simpl in HI. destruct (scratch_total _ (i_static _ _ HI) (S m) m) as [v Hv]; auto.
   exists v. split; auto. intros Hr. eapply values_after_pass; eauto.
+Qed.
+
+(** * Passes stopped by a failing predicate *)
+
+(** in a stopped pass only listed nodes run: a Map function that runs belongs to a node of
+    [ran] (under ParallelStabilize, and under Stabilize unless a dependent was recomputed
+    directly after a height-0 node, [ran] holds height-0 nodes only, and no Map runs) *)
+Lemma runListed_runs N fires skip ks : forall lg m,
+  m ∈ map fst (runs (snd (fold_left (runListed N fires skip) ks lg))) ->
+  m ∈ map fst (runs (snd lg)) \/ m ∈ ks.
+Proof.
+  induction ks as [|k ks IH]; intros lg m H; simpl in *; auto.
+  apply IH in H as [H|H]; [|right; right; auto]. unfold runListed in H.
+  destruct (_ && _); auto. destruct (stepNode_log N fires (fst lg) k (snd lg)) as (arg & E & _).
+  rewrite E, map_app in H. apply elem_of_app in H as [H|H]; auto.
+  destruct (isMap _); simpl in H; [|inversion H]. apply elem_of_list_singleton in H. subst. right. left.
+Qed.
+
+Lemma failStep_runs pan xs : forall lg, runs (snd (fold_left (failStep head pan) xs lg)) = runs (snd lg).
+Proof.
+  induction xs as [|x xs IH]; intros lg; simpl; auto. rewrite IH. unfold failStep.
+  destruct (_ && _); auto.
+Qed.
+
+Theorem stopped_pass_runs_listed ops fires ran failed panicked m :
+  m ∈ map fst (runs (snd (last_stopped head ops fires ran failed panicked))) -> m ∈ ran.
+Proof.
+  unfold last_stopped, StabilizeStopped, stoppedLoop. simpl. rewrite !failStep_runs.
+  intros H. apply runListed_runs in H as [H|H]; auto. inversion H.
+Qed.
+
+Lemma run_snoc c ops o : run c init (ops ++ [o]) = fst (step c (run c init ops) o).
+Proof. rewrite run_app. reflexivity. Qed.
+
+(** after a stopped pass every watching sentinel whose node is in the graph is queued, and
+    its watch edge is intact *)
+Theorem stopped_pass_requeues ops fires ran failed panicked x w :
+  stopped_stmt head ops fires ran failed panicked x w.
+Proof.
+  unfold stopped_stmt. set (l := nodes (fst (last_stopped head ops fires ran failed panicked))). intros Hw Hr.
+  pose proof (watch_edge_invariant (ops ++ [OStabilizeStopped fires ran failed panicked]) x) as H.
+  unfold watch_stmt in H. rewrite run_snoc in H. cbn [step] in H. unfold last_stopped in l.
+  change (nodes (StabilizeStopped head (run head init ops) fires ran failed panicked).1) with l in H.
+  cbv zeta in H. rewrite Hw in H. destruct H as (_ & _ & _ & _ & _ & _ & H). destruct (H Hr) as (?&?&?&?). auto.
+Qed.
+
+(** a sentinel whose predicate failed in the stopped pass is still queued after it *)
+Lemma failStep_queued pan lg x k :
+  queued (nd (fst lg) k) = true -> queued (nd (fst (failStep head pan lg x)) k) = true.
+Proof.
+  intros H. unfold failStep. destruct (_ && _); simpl; auto. destruct pan; auto.
+  rewrite nd_upd. case_decide as Hd; auto.
+Qed.
+
+Lemma failStep_evals pan lg x k :
+  k ∈ evals (snd (failStep head pan lg x)) ->
+  k ∈ evals (snd lg) \/ (k = x /\ queued (nd (fst lg) x) = true).
+Proof.
+  unfold failStep. destruct (queued (nd (fst lg) x)) eqn:Eq; simpl; auto.
+  destruct (isSent _); simpl; auto. intros H. apply elem_of_app in H as [H|H]; auto.
+  apply elem_of_list_singleton in H. auto.
+Qed.
+
+Lemma fails_stay_queued pan xs : forall lg k,
+  (k ∈ evals (snd lg) -> queued (nd (fst lg) k) = true) ->
+  k ∈ evals (snd (fold_left (failStep head pan) xs lg)) ->
+  queued (nd (fst (fold_left (failStep head pan) xs lg)) k) = true.
+Proof.
+  induction xs as [|x xs IH]; intros lg k H; simpl; auto.
+  apply IH. intros Hk. apply failStep_evals in Hk as [Hk|[-> Hq]]; apply failStep_queued; auto.
+Qed.
+
+Lemma runListed_evals N fires skip ks : forall lg k,
+  k ∈ skip -> k ∉ evals (snd lg) -> k ∉ evals (snd (fold_left (runListed N fires skip) ks lg)).
+Proof.
+  induction ks as [|j ks IH]; intros lg k Hs Hk; simpl; auto.
+  apply IH; auto. unfold runListed.
+  destruct (runnable N (fst lg) j) eqn:E1; simpl; auto. destruct (inb j skip) eqn:E2; simpl; auto.
+  destruct (stepNode_log N fires (fst lg) j (snd lg)) as (arg & _ & ->).
+  intros H. apply elem_of_app in H as [H|H]; auto. destruct (isSent _); [|inversion H].
+  apply elem_of_list_singleton in H. subst. apply inb_true in Hs. congruence.
+Qed.
+
+Theorem failed_sentinel_stays_queued ops fires ran failed panicked x :
+  let r := last_stopped head ops fires ran failed panicked in
+  x ∈ failed ++ panicked -> x ∈ evals (snd r) -> queued (nd (nodes (fst r)) x) = true.
+Proof.
+  intros r Hx He. unfold r, last_stopped, StabilizeStopped in *. simpl in *.
+  apply requeue_frame. unfold stoppedLoop in *.
+  apply fails_stay_queued; auto. apply fails_stay_queued; auto.
+  intros Hk. exfalso. revert Hk. apply runListed_evals; auto. simpl. intros H. inversion H.
+Qed.
+
+(** the retry: the fault-free pass after a stopped pass evaluates every watching sentinel
+    whose node is in the graph exactly once, wakes the Maps of those that fire exactly once,
+    and leaves every node of the graph at its from-scratch value *)
+Theorem retry_after_stopped_pass ops fires ran failed panicked fires' :
+  let ops' := ops ++ [OStabilizeStopped fires ran failed panicked] in
+  (forall x w, pass_stmt head ops' fires' x w) /\
+  (forall m v, let l' := nodes (fst (last_pass head ops' fires')) in
+               reg (nd l' m) = true -> scratch l' m v -> val (nd l' m) = v).
+Proof.
+  intros ops'. split.
+  - intros x w. apply sentinel_pass.
+  - intros m v. apply values_after_pass.
+Qed.
+
+(** the line that puts a panicked node back on the heap is what 5a depends on: without it a
+    sentinel whose predicate panics drops out of the heap and is never evaluated again *)
+Definition hist_panic : list op := [ONewVar 5; ONewMap f1 0; ONewSentinel 1; OObserve 1].
+
+Lemma requeue_panicked_refuted : ~ stopped_stmt (Cfg true true true false) hist_panic [] [] [] [2] 2 1.
+Proof.
+  unfold stopped_stmt. vm_compute. intros H. destruct (H eq_refl eq_refl) as [H1 _]. discriminate.
 Qed.
